@@ -146,6 +146,18 @@ CLAIMED = {
               'month differences not covered; two listed known findings (__yd_diff, __ywd_diff)'),
         technique='CBMC bounded model checking of diff kernels composed with the add kernels (inverse law)',
         design='3/C05'),
+    'C20': dict(
+        text=('Bounded model checking of the locale setter state machine of lib/dt-locale.c (every sequence of up to 3/4 '
+              'calls of set_il, set_fl, reset_il, reset_fl on distinct heap tables: input tables follow the last '
+              '--from-locale, output tables the last --locale, nothing freed twice or while in use) and of the clock '
+              'gate (massage_strpdt/dt_get_base with counting clock stubs: no clock read for records with a year, none at '
+              'all once a base is set); plus a call-graph obligation on the goto program of every tool: no edge into '
+              'localtime/mktime/tzset/setlocale/strftime/..., clock reads only in now_tv.'),
+        note=('call-graph part is a static over-approximation by goto-instrument, not a solver query; getenv only for '
+              'LOCALE_FILE/TZMAP_DIR (not checked); the locale file parser (__setlocale, tokenise) is not covered; '
+              'one defect found and fixed'),
+        technique='CBMC bounded model checking of setter call sequences and the clock gate + goto call-graph reachability',
+        design='3/C20'),
 }
 
 NA = {}
